@@ -461,6 +461,7 @@ def check(ctx):
         pe = plat_out[p]
         batches[p].append(("platform", None, {"k": "platform", "names": sorted(pe["exports"])}))
         batches[p].append(("frontend", None, {"k": "frontend", "what": "net_if_addrs"}))
+        batches[p].append(("sysconn", None, {"k": "frontend", "what": "net_connections"}))
         for m in sorted(pe["methods"]):
             for pid in (5, 0):
                 batches[p].append(("baseline", ("module", m, pid), {"k": "baseline", "m": m, "pid": pid}))
@@ -532,6 +533,23 @@ def check(ctx):
                     unknown_methods[p] = extra
             elif tag == "frontend":
                 judge_net_if_addrs(ctx, p, pe, ans)
+            elif tag == "sysconn":
+                # the system-wide listing: every record is the 7-slot sconn, its last slot the owner's PID
+                # -- also when that PID is 0
+                ctx.case(("sysconn", p))
+                rows = ans.get("val", {}).get("l") if ans.get("cls") == "ok" else None
+                if p in ("macos",):
+                    pass        # macOS builds the system-wide listing from per-process calls
+                elif not rows:
+                    ctx.disagree("conf:%s:net_connections:system-wide" % p, "psutil.net_connections() on %s -> %r" % (p, ans),
+                                 {"platform": p, "answer": ans})
+                else:
+                    shapes = [(r.get("nt"), r.get("f", [])[-1:], r.get("v", [])[-1:]) for r in rows]
+                    pids = sorted(v[0] for _, f, v in shapes if f == ["pid"])
+                    if any(nt != "sconn" for nt, _, _ in shapes) or pids != [0, 5]:
+                        ctx.disagree("conf:%s:net_connections:system-wide:record" % p,
+                                     "psutil.net_connections() on %s: records %r; expected two sconn records owned by PIDs 0 and 5"
+                                     % (p, [(nt, f, v) for nt, f, v in shapes]), {"platform": p, "answer": ans})
             elif tag == "baseline":
                 via, m, pid = payload
                 if pid == 5 and ans.get("cls") != "ok":
